@@ -54,6 +54,14 @@ theorem abs_make_ep_easy (K : Keys) {b : Board} {m : Move} (hv : Board.valid b =
       (abs (b.makeMove K m).1).ep = (Rules.applyCore (abs b) (decodeMove m)).ep :=
   AbsMake.abs_make_ep_easy K (AbsMake.genMove_of hv hm)
 
+/-- glue for the full C02 statement: once the en-passant targets agree (the clause proved in
+    Proofs/EpTarget*.lean), the abstraction of the successor board *is* `Rules.apply`. -/
+theorem abs_make_eq_apply_of_ep (K : Keys) {b : Board} {m : Move} (hv : Board.valid b = true)
+    (hm : m ∈ MoveGen.gen b)
+    (hep : (abs (b.makeMove K m).1).ep = (Rules.apply (abs b) (decodeMove m)).ep) :
+    abs (b.makeMove K m).1 = Rules.apply (abs b) (decodeMove m) :=
+  AbsMake.abs_make_eq_apply_of_ep K (AbsMake.genMove_of hv hm) hep
+
 /-- the engine and the rule book classify the same generated moves as en-passant captures and as
     castling moves (the two special cases of the placement clause). -/
 theorem isEnPassant_agree {b : Board} {m : Move} (hv : Board.valid b = true) (hm : m ∈ MoveGen.gen b) :
